@@ -146,6 +146,7 @@ partial def loop (h : IO.FS.Stream) (out : IO.FS.Stream) : IO Unit := do
       | .error e => Json.mkObj [("error", Json.str e)]
       | .ok r => r
   out.putStrLn reply.compress
+  out.flush
   loop h out
 
 def main : IO Unit := do
